@@ -263,6 +263,10 @@ def sym_real_model(ctx, cfg):
 
 def _id_props(log, n):
     import z3
+    if not any(e[0] == "prediction phase" for e in log):
+        # training failed in some fold: brew re-scores with the original model or returns zeros (C07's business);
+        # no fold model predicts anything
+        return []
     last_fit_pos = max([i for i, e in enumerate(log) if e[0] == "prediction phase"], default=len(log))
     last_fit = {}
     props = []
